@@ -70,13 +70,12 @@ func New(ctx context.Context, log *slog.Logger, opts ...Opt) (*Engine, error) {
 
 	var err error
 	for _, opt := range opts {
-		err = errors.Join(opt(e, &smCfg))
-	}
-	if err != nil {
-		return nil, err
+		err = errors.Join(err, opt(e, &smCfg))
 	}
 
-	if err := e.validateSettings(smCfg); err != nil {
+	// Report rejected option values together with missing required options,
+	// so the caller sees every problem at once.
+	if err = errors.Join(err, e.validateSettings(smCfg)); err != nil {
 		return nil, err
 	}
 
